@@ -133,6 +133,12 @@ Definition ledger_event (g : ledger) (e : lev) : ledger * nat :=
       | None => (g1, 0%nat)
       end
   | LClose o err =>
+      (* a Close from inside a callback that an open Cancel of the same object invoked: the object owes nothing more (no
+         callback after Close returns), so the Cancel's remaining obligations are void *)
+      let g := match g_cancel g with
+               | Some (co, must) => if co =? o then mkledger (g_dead g) (g_objs g) (g_tmrs g) (g_posts g) (g_now g) (g_forced g)
+                                                       (Some (co, [])) (g_unowned g) (g_fired g) else g
+               | None => g end in
       (set_gobj g o (mklobj None None true), 0%nat)
   | LSched t rep ms cb err =>
       let lt := gtm g t in
